@@ -87,29 +87,22 @@ impl Epoch {
                     days_in_year -= 1.0;
                 }
             }
-            if days_in_year < 0.0 {
-                // We've underflowed the number of days in a year because of the leap years
-                year -= 1;
-                days_in_year += DAYS_PER_YEAR_NLD;
-                // If we had incorrectly removed one day of the year in the previous loop, fix it here.
-                if is_leap_year(year) {
-                    days_in_year += 1.0;
-                }
-            }
         } else {
             for y in year..HIFITIME_REF_YEAR {
                 if is_leap_year(y) {
                     days_in_year += 1.0;
                 }
             }
-            // Check for greater than or equal because the days are still zero indexed here.
-            if (days_in_year >= DAYS_PER_YEAR_NLD && !is_leap_year(year))
-                || (days_in_year >= DAYS_PER_YEAR_NLD + 1.0 && is_leap_year(year))
-            {
-                // We've overflowed the number of days in a year because of the leap years
-                year += 1;
-                days_in_year -= DAYS_PER_YEAR_NLD;
-            }
+        }
+        // The leap days may have moved the day count out of the estimated year (by more than one
+        // year far from the reference year), so walk to the year that contains it.
+        while days_in_year < 0.0 {
+            year -= 1;
+            days_in_year += days_in_year_of(year);
+        }
+        while days_in_year >= days_in_year_of(year) {
+            days_in_year -= days_in_year_of(year);
+            year += 1;
         }
 
         let cumul_days = if is_leap_year(year) {
@@ -752,6 +745,15 @@ const CUMULATIVE_DAYS_FOR_MONTH_LEAP_YEARS: [u16; 12] = {
     }
     days
 };
+
+/// Number of days in the provided year
+fn days_in_year_of(year: i32) -> f64 {
+    if is_leap_year(year) {
+        DAYS_PER_YEAR_NLD + 1.0
+    } else {
+        DAYS_PER_YEAR_NLD
+    }
+}
 
 /// `is_leap_year` returns whether the provided year is a leap year or not.
 /// Tests for this function are part of the Datetime tests.
